@@ -341,6 +341,11 @@ def matrix_cases(tier):
         if tier != 'quick':
             for ts in itertools.product(REDUCED4, repeat=4):
                 out.append(('func', name, ts))
+    # the same operator / function cases over CONSTANT operands (compile-time folding is a separate code path):
+    # the verdict depends on the operand types only
+    for kind, name, ts in list(out):
+        if kind in ('op', 'func') and ts and len(ts) <= 3 and all(t in CONST_OPERAND for t in ts) and any(t is not NoneType for t in ts):
+            out.append((kind + '-const', name, ts))
     for t in UNIVERSE:
         for attr in attribute_menu():
             out.append(('attr', attr, (t,)))
@@ -353,7 +358,16 @@ def matrix_cases(tier):
     return out
 
 
+CONST_OPERAND = {int: 1, decimal.Decimal: decimal.Decimal('1.5'), str: 'a', datetime.date: datetime.date(2020, 1, 2), bool: True, NoneType: None}
+
+
 def matrix_expr(kind, name, ts):
+    if kind.endswith('-const'):
+        ops = [C(CONST_OPERAND[t]) for t in ts]
+        if kind == 'func-const':
+            return A.Function(name, ops)
+        cls = OPS_BY_NAME[name]
+        return cls(ops) if cls in (A.And, A.Or) else cls(*ops)
     if kind == 'op':
         cls = OPS_BY_NAME[name]
         ops = [operand(t) for t in ts]
@@ -389,8 +403,10 @@ def typing_fp(verdict_rules, kind, name):
 
 def check_matrix_case(conn, env, kind, name, ts, acc):
     expr = matrix_expr(kind, name, ts)
-    label = case_label(kind, name, ts)
     case = {'part': 'a', 'kind': kind, 'name': name, 'types': [t if isinstance(t, str) else RT.type_key(t) for t in ts]}
+    const = kind.endswith('-const')
+    kind = kind.replace('-const', '')
+    label = case_label(kind, name, ts) + (' over constants' if const else '')
     stmt = select([(expr, 'r')], from_='m')
     acc.count('a_cases')
     acc.count(f'a_kind:{kind}')
